@@ -299,10 +299,6 @@ def special (inner : Inner) (mode : Mode) (c : Nat) (name : String) (args : List
   | "eval" | "evalsha" | "script" => scriptCmd inner c name args cis
   | _ => fault ("model: command not modelled: " ++ name); return .error ("model: command not modelled: " ++ name)
 
-/-- level 0: the commands run by EXEC; an EXEC cannot be queued, so the innermost level has none -/
-def runInner (mode : Mode) (c : Nat) (sig : Sig) (raw : List Bytes) : M (Option Reply) :=
-  runWith (special (fun _ _ => do fault "nested exec"; return none)) mode c sig raw false
-
 /-- ASCII lower-casing of the command name; `none` when the name cannot denote a command -/
 def commandName (b : Bytes) : Option String :=
   if b.all (fun c => c < 128) then some (bytesStr (b.map lowerByte)) else none
@@ -606,6 +602,12 @@ def runScriptCmd (mode : Mode) (c : Nat) (sig : Sig) (raw : List Bytes) (fromScr
       | .error e =>
         if e.startsWith "model:" then fault e
         return some (.err (strBytes e))
+
+/-- level 0: the commands run by EXEC (`self._run_command(func, sig, args, False)` with `_in_transaction` set).
+A queued script command is run exactly like a direct one; an EXEC cannot be queued, so the innermost level has none -/
+def runInner (mode : Mode) (c : Nat) (sig : Sig) (raw : List Bytes) : M (Option Reply) :=
+  if scriptNames.contains sig.name then runScriptCmd mode c sig raw false
+  else runWith (special (fun _ _ => do fault "nested exec"; return none)) mode c sig raw false
 
 /-- `_run_command` for a command issued by the client -/
 def runCommand (mode : Mode) (c : Nat) (sig : Sig) (raw : List Bytes) (fromScript : Bool) : M (Option Reply) :=
